@@ -1,5 +1,5 @@
 CONSTANTS NV = 3  MaxPower = 1  SlotKinds = {"valid"}  Extras = {"none"}
-  QuorumRule = "exact"  CountDuplicates = FALSE  DropOnMismatch = TRUE  Part = "pipeline"
+  QuorumRule = "exact"  CountDuplicates = FALSE  DropOnMismatch = TRUE  PowerCap = 1000000  Part = "pipeline"
 INIT Init
 NEXT Next
 INVARIANTS AcceptOnlyWithQuorum AcceptWellFormedWithQuorum NeverExceedsTotal FirmOnlyIfCommitted DataOnlyIfBound Export
